@@ -118,7 +118,10 @@ chk('C01', 'exploration',
     'chooses the next one at every lock / condition / queue / thread '
     'operation (seeded random walk and PCT depth 2-4 over random DAGs with '
     'every outcome kind and 1-16 workers; every schedule with at most 2 '
-    'preemptions of the 2-3-task shapes) and (b) with the real primitives '
+    'preemptions of the 2-3-task shapes; nested sub-graphs flattened by '
+    'the Scheduler; one schedule per case with a share of the source lines '
+    'of queue.py / env.py as extra scheduling points) and (b) with the real '
+    'primitives '
     'under a 1 us switch interval, delays between critical sections and '
     'sys.monitoring line-level yield injection.',
     'schedules are sampled (thousands of distinct traces per run, exhaustive '
@@ -136,7 +139,11 @@ chk('C02', 'exploration',
     'FAILED); every generated (graph, failing subset) is executed under at '
     'least nine controlled schedules over three worker counts and a share in '
     'the stress layer, so that all schedules of a case are required to give '
-    'the one reference map.',
+    'the one reference map; malformed results include falsy non-mappings, '
+    'plain numbers equal to non-final statuses, unmergeable updates and '
+    'SystemExit; nested sub-graphs, more than 100 simultaneously ready tasks '
+    'per worker, and the same backend and task objects reused for another '
+    'graph are part of the workload.',
     'schedules are sampled; non-final statuses returned by tasks are outside '
     'the statement',
     'runtime monitoring: execution counters + final status map vs executable '
@@ -151,8 +158,10 @@ chk('C03', 'exploration',
     'behind a DAG, cycle through soft edges), every outcome kind including '
     'malformed and non-final results, initial environments with DONE / FAILED '
     '/ SKIPPED entries, 1-16 workers, random-walk and PCT schedules; the same '
-    'census with real primitives under stress, and driver child processes '
-    'that only call schedule() and must exit.',
+    'census (at the instant the call comes back, and after quiescence) with '
+    'real primitives under stress, the same Scheduler used for a second run, '
+    'every schedule with at most two preemptions of tiny graphs, and driver '
+    'child processes that only call schedule() and must exit.',
     'termination is decided as absence of deadlock at the controller\'s '
     'scheduling points plus a thread census; wall-clock timeouts alone are '
     'inconclusive',
@@ -164,8 +173,10 @@ chk('C04', 'exploration',
     'fail, recover, lose their persisted entry, are newly added), the '
     'environment carried over the documented way (only DONE entries merged; '
     'also through the real write_env/read_env files), each run under a '
-    'controlled schedule with a logical clock carried across runs and a share '
-    'in the stress layer with real clocks; after every run invariant I1 (no '
+    'controlled schedule with a logical clock carried across runs, a share '
+    'in the stress layer with real clocks, and a share through the real '
+    'RunCommand.execute (generated job file, valjean.env files, runs that '
+    'ask only for a part of the job); after every run invariant I1 (no '
     'DONE task older than a DONE dependency or with a FAILED/SKIPPED hard '
     'dependency) and I2 (a DONE task whose transitive dependencies were DONE '
     'and not re-executed is not executed and its entry digest is unchanged) '
@@ -206,9 +217,11 @@ chk('C12', 'exploration',
     'tables of dataset comparisons rows are mapped back to bins through '
     'their independently formatted bin labels and the highlighted rows must '
     'be exactly the failing bins with the values / errors of those bins; '
-    'sliced and joined TableTemplates must render as the corresponding rows '
-    'of the original; an icontract invariant keeps columns and highlights of '
-    'every TableTemplate the same size.',
+    'sliced, indexed and joined TableTemplates must render as the '
+    'corresponding rows of the original; one Rst object formatting several '
+    'results in a row must give what a fresh object gives; an icontract '
+    'invariant keeps columns and highlights of every TableTemplate the same '
+    'size (thorough: also under the repository\'s own javert tests).',
     'docutils trusted as reader; names and messages without rst markup; plot '
     'representers only on datasets without length-1 dimensions',
     'runtime monitoring: docutils read-back oracle over generated results x '
@@ -239,7 +252,9 @@ chk('C19', 'exploration',
     'recorded return codes, the ordered content of the captured stdout / '
     'stderr files and the directory each task owns are compared with it; '
     'the position of the first failure is enumerated completely for lists '
-    'of up to four commands.',
+    'of up to four commands; output with carriage returns is compared byte '
+    'for byte; CheckoutTask / BuildTask run with GIT / CMAKE pointed at a '
+    'scripted fake tool.',
     '/bin/sh trusted; when do() raises for a program that cannot be started '
     'only status FAILED through the scheduler is required',
     'runtime monitoring: scripted fault injection (exit codes, signals, '
@@ -294,8 +309,10 @@ chk('C11', 'fault_enumeration',
     'sys.monitoring, and the deep digest of the responses of every parsed '
     'edition against the same edition of the complete listing; memoised '
     'editions are re-parsed later in another order and after failing parses, '
-    'and prefixes are repeated in a fresh process, to expose state carried '
-    'between parses.',
+    'a decoy of the same size is opened at the same path before 4 % of the '
+    'prefixes, another thread parses the complete listing after the sweep '
+    '(hang = no Python function entered for 10 s), and prefixes are repeated '
+    'in a fresh process, to expose state carried between parses.',
     'batch_data / run_data (times and counters derived from the whole file) '
     'may differ after a cut; hang = logical step budget; pyparsing trusted',
     'runtime monitoring: exhaustive crash-point enumeration (every byte '
